@@ -78,21 +78,31 @@ def h_hash_seed(ctx, case):
     IT = ctx.int('iterations', 1, 1000000)
     nas = ctx.choice('n_assignments-1', case.get('max_nas', 2)) + 1
     try:
+        nc = case.get('cells', 1)
         oracle, r1 = LL.run_levels(ctx, case, tree, levels, names, parents,
-                                   1, nas, IT)
+                                   nc, nas, IT)
         n1 = NondetSet._n[0]
+        visits1 = list(oracle.visits)
+        oracle.visits.clear()
         oracle, r2 = LL.run_levels(ctx, case, tree, levels, names, parents,
-                                   1, nas, IT, oracle=oracle)
+                                   nc, nas, IT, oracle=oracle)
+        visits2 = list(oracle.visits)
     except Exception as e:
         ctx.exception(e)
         return 'EXC ' + type(e).__name__
     ctx.reach('mapped')
     if n1 > 0:
         ctx.reach('set iterated')
-    LL.check_records(ctx, oracle, r1, levels, levels, names, parents, [0],
-                     nas, IT, confidence=True)
-    C06.same_record(ctx, r1[0], r2[0], levels,
-                    'two hash seeds (set iteration orders)')
+    if not case.get('light'):
+        LL.check_records(ctx, oracle, r1, levels, levels, names, parents,
+                         list(range(nc)), nas, IT, confidence=True)
+    for a, b in zip(r1, r2):
+        C06.same_record(ctx, a, b, levels,
+                        'two hash seeds (set iteration orders)')
+    # all parents draw from one shared random generator: the order in
+    # which they are visited must not depend on the hash seed either
+    ctx.check(visits1 == visits2, 'parents are voted on in the same order '
+              'under both hash seeds (they share one random generator)')
     return 'ok'
 
 
@@ -127,7 +137,9 @@ HARNESSES = [
             split=64),
     Harness('hash_seed_independence', h_hash_seed, setup=setup_hash,
             cases=[{'sizes': s, 'max_nas': 2} for s in
-                   ([2], [3], [1, 2], [2, 3], [1, 2, 3])],
+                   ([2], [3], [1, 2], [2, 3], [1, 2, 3])]
+            + [{'sizes': [2, 4], 'max_nas': 1, 'cells': 2, 'light': True,
+                'parents': [[0, 0, 1, 1]]}],
             thorough_cases=[{'sizes': s} for s in
                             ([2], [3], [1, 2], [2, 3], [1, 2, 3],
                              [2, 2, 3], [2, 3, 4])],
